@@ -25,7 +25,9 @@ import (
 	"fmt"
 	"iter"
 	"sort"
+	"strings"
 	"testing"
+	"testing/synctest"
 	"time"
 
 	"github.com/prometheus/prometheus/model/labels"
@@ -320,7 +322,26 @@ func TestCheck(t *testing.T) {
 			r.Nontrivial(fmt.Sprint(c.WRL, string(b)))
 		}
 		for _, cfg := range cfgs {
-			srv, err := runProxy(c, cfg)
+			// Inside a synctest bubble a deadlock of the proxy's goroutines (every goroutine durably blocked, no
+			// timer pending) is reported deterministically as a panic instead of hanging the check.
+			var srv *collectServer
+			var err error
+			dead := ""
+			func() {
+				defer func() {
+					if p := recover(); p != nil {
+						dead = fmt.Sprint(p)
+					}
+				}()
+				synctest.Test(t, func(t *testing.T) { srv, err = runProxy(c, cfg) })
+			}()
+			if dead != "" {
+				if !strings.Contains(dead, "deadlock") {
+					panic(dead)
+				}
+				r.Violation("series-call-deadlocks", fmt.Sprintf("[%s] Series never returns: %s", cfg, dead), c)
+				continue
+			}
 			compare(r, c, cfg, ref, srv, err)
 		}
 		r.Add("proxy_series_calls", int64(len(cfgs)))
